@@ -207,7 +207,9 @@ pub struct PairSpace {
 }
 
 #[derive(Clone)]
-pub struct PAux;
+/// (non-zero: the history contains one refused call that changed nothing observable; see
+/// `Alphabet::residue`)
+pub struct PAux(pub u64);
 
 impl PairSpace {
     fn rebuild(&self, hist: &[Op]) -> (Box<dyn Sys>, Box<dyn Sys>) {
@@ -526,14 +528,15 @@ impl Space for PairSpace {
                 replay: self.replay(&[], None, json!({})),
             });
         }
-        vec![(PAux, self.key(a.as_ref(), b.as_ref()), vio)]
+        vec![(PAux(0), self.key(a.as_ref(), b.as_ref()), vio)]
     }
     fn expand(&self, st: &State<PAux>) -> Expansion<PAux> {
         let mut e = Expansion::<PAux>::default();
         let probes = &self.alphabet.universe.paths;
         let mut sys = Some(self.rebuild(&st.hist));
         let (a0, b0) = sys.as_ref().unwrap();
-        if self.key(a0.as_ref(), b0.as_ref()) != st.key {
+        let tag = st.aux.0;
+        if self.key(a0.as_ref(), b0.as_ref()) ^ (tag as u128) != st.key {
             eprintln!("MACHINERY: nondeterministic replay in pair {}", self.label);
             std::process::exit(2);
         }
@@ -579,7 +582,19 @@ impl Space for PairSpace {
                     });
                 }
             }
-            let key = self.key(a.as_ref(), b.as_ref());
+            let base_key = self.key(a.as_ref(), b.as_ref());
+            let mut key = base_key ^ (tag as u128);
+            let mut next_tag = tag;
+            if self.alphabet.residue && tag == 0 && key == st.key && oa.is_err() {
+                let mut h = std::collections::hash_map::DefaultHasher::new();
+                // (the call and the state it was refused in)
+                ("refused", op.show(), st.key).hash(&mut h);
+                next_tag = h.finish() | 1;
+                key = base_key ^ (next_tag as u128);
+                *e.counters
+                    .entry("residue:states-after-a-refused-call".into())
+                    .or_insert(0) += 1;
+            }
             *e.counters
                 .entry(format!("{}:{}", op.name(), oa.class()))
                 .or_insert(0) += 1;
@@ -592,7 +607,7 @@ impl Space for PairSpace {
             e.succ.push(Succ {
                 op: op.clone(),
                 key,
-                aux: if diverged { None } else { Some(PAux) },
+                aux: if diverged { None } else { Some(PAux(next_tag)) },
             });
         }
         e
